@@ -15,6 +15,7 @@ import (
 	"time"
 
 	"github.com/honeytrap/honeytrap/listener"
+	"golang.org/x/crypto/ssh"
 )
 
 // C09: handlers finish and release everything once the peer is gone.
@@ -253,11 +254,13 @@ func runSilent(stages map[string][][]byte, idle, margin time.Duration) {
 		wg.Add(1)
 		go func(r *run) {
 			defer wg.Done()
+			// a timeout that strikes while a partial line is buffered is swallowed once by bufio's ReadLine, and a
+			// transfer command first waits for its own accept timeout: the bound is two idle periods
 			select {
 			case <-r.done:
 				r.ret, r.ok = time.Since(t0), true
-			case <-time.After(idle + margin):
-				r.ret = idle + margin
+			case <-time.After(2*idle + margin):
+				r.ret = 2*idle + margin
 			}
 		}(r)
 	}
@@ -270,11 +273,13 @@ func runSilent(stages map[string][][]byte, idle, margin time.Duration) {
 	for _, r := range runs {
 		verdict := "ok"
 		if !r.ok {
-			verdict = fmt.Sprintf("viol:handler-does-not-return:%s: handle() still running %v after the client fell silent (stage of %d bytes); the idle timeout is %v", r.svc, idle+margin, len(r.stage), idle)
+			verdict = fmt.Sprintf("viol:handler-does-not-return:%s: handle() still running %v after the client fell silent (stage of %d bytes); the idle timeout is %v", r.svc, 2*idle+margin, len(r.stage), idle)
 		}
 		out := "returned-after-idle-timeout"
 		if r.ok && r.ret < idle-2*time.Second {
 			out = "returned-early"
+		} else if r.ok && r.ret > idle+margin {
+			out = "returned-after-second-timeout"
 		} else if !r.ok {
 			out = "still-running"
 		}
@@ -403,6 +408,49 @@ func runRelFTP(cmds []string) {
 	emit(line, fmt.Sprintf("during=%d/%d after=%d/%d", dg+dl, dl, ag+al, al), verdict, len(cmds) > 0)
 }
 
+// runRelSSH: "@relssh <n> <k>": n sequential authenticated ssh sessions that send exec plus k further channel requests
+// in one burst and close; handle() must return, nothing may stay behind
+func runRelSSH(n, k int) {
+	lab := c09Lab()
+	line := fmt.Sprintf("@relssh %d %d", n, k)
+	verdict := "ok"
+	g0 := htGoroutines()
+	fd0 := fdCount()
+	for i := 0; i < n && verdict == "ok"; i++ {
+		cli, done := serveTCP(lab, "ssh-simulator")
+		cli.SetDeadline(time.Now().Add(10 * time.Second))
+		cc := &ssh.ClientConfig{User: "root", Auth: []ssh.AuthMethod{ssh.Password("root")}, HostKeyCallback: ssh.InsecureIgnoreHostKey(), Timeout: 5 * time.Second}
+		c, chans, reqs, err := ssh.NewClientConn(cli, "lab", cc)
+		if err == nil {
+			go ssh.DiscardRequests(reqs)
+			go func() {
+				for range chans {
+				}
+			}()
+			if ch, rq, err := c.OpenChannel("session", nil); err == nil {
+				go ssh.DiscardRequests(rq)
+				ch.SendRequest("exec", false, []byte{0, 0, 0, 2, 'i', 'd'})
+				for j := 0; j < k; j++ {
+					ch.SendRequest("env", false, []byte{0, 0, 0, 1, 'A', 0, 0, 0, 1, 'b'})
+				}
+				time.Sleep(20 * time.Millisecond)
+			}
+			c.Close()
+		}
+		cli.Close()
+		select {
+		case <-done:
+		case <-time.After(4 * time.Second):
+			verdict = fmt.Sprintf("viol:handler-does-not-return:ssh-simulator: handle() still running 4 s after a client that sent exec and %d more channel requests closed", k)
+		}
+	}
+	dg, what, dfd := settleRes(g0, fd0, 1500*time.Millisecond)
+	if dg > 0 && verdict == "ok" {
+		verdict = fmt.Sprintf("viol:goroutines-left-behind:ssh-simulator: after %d sessions %d honeytrap goroutines more than before: %s", n, dg, what)
+	}
+	emit(line, fmt.Sprintf("g=%d fd=%d", dg, maxInt(dfd, 0)), verdict, true)
+}
+
 // ---- inputs: per service a well-formed dialogue prefix, plus generic ones ----
 
 func c09Inputs(svc string, r *Rng) [][]byte {
@@ -467,6 +515,13 @@ func init() {
 			runRelUDP(a, b, c)
 		} else if len(f) >= 2 && f[0] == "rel" && f[1] == "ftp" {
 			runRelFTP(f[2:])
+		} else if len(f) == 3 && f[0] == "@relssh" {
+			var a, b int
+			fmt.Sscan(f[1], &a)
+			fmt.Sscan(f[2], &b)
+			runRelSSH(a, b)
+		} else if len(f) == 3 && f[0] == "@silent" {
+			runSilent(map[string][][]byte{f[1]: {unhx(f[2])}}, 30*time.Second, 6*time.Second)
 		} else if len(f) == 5 && f[0] == "@rel" {
 			var n int
 			fmt.Sscan(f[3], &n)
@@ -573,11 +628,15 @@ func genC09(tier string, seed uint64) {
 			stages[svc] = append(stages[svc], in[:len(in)/2+1])
 		}
 	}
-	runSilent(stages, 30*time.Second, 6*time.Second)
 	if tier == "thorough" {
 		// a transfer command on a passive port nobody connects to waits for the accept timeout (30 s) before the
-		// idle timeout of the control connection starts: bounded by twice the idle timeout
-		runSilent(map[string][][]byte{"ftp": {[]byte("USER anonymous\r\nPASS anonymous\r\nPASV\r\nLIST\r\n")}}, 60*time.Second, 6*time.Second)
+		// idle timeout of the control connection starts
+		stages["ftp"] = append(stages["ftp"], []byte("USER anonymous\r\nPASS anonymous\r\nPASV\r\nLIST\r\n"))
+	}
+	runSilent(stages, 30*time.Second, 6*time.Second)
+	// authenticated ssh sessions with bursts of channel requests
+	for _, k := range []int{0, 3, 16, 17, 40} {
+		runRelSSH(3, k)
 	}
 	for _, svc := range names {
 		for k, in := range append(c09Inputs(svc, r), c01Inputs(svc, r)...) {
